@@ -167,3 +167,74 @@ func c12Aliasing(c *ev.Ctx, r *rand.Rand, caseN int) {
 		c.Nontrivial(ev.Hash("alias", fmt.Sprint(want), fmt.Sprint(c12canon(mo))))
 	}
 }
+
+// c12HandMadeRLP: the decoder is an input surface of its own - lists that no encoder produced (any order, repeated
+// IDs, zero weights) must still decode to a consistent set: the pairs applied in list order (a later entry replaces an
+// earlier one, weight 0 removes), in canonical order, with matching total, and countable as a whole.
+func c12HandMadeRLP(c *ev.Ctx, r *rand.Rand, caseN int) {
+	type pair struct {
+		ID idx.ValidatorID
+		W  pos.Weight
+	}
+	var list []pair
+	m := map[idx.ValidatorID]uint64{}
+	for j := 0; j < 1+r.Intn(7); j++ {
+		p := pair{idx.ValidatorID(1 + r.Intn(5)), pos.Weight(r.Intn(6))}
+		if r.Intn(3) == 0 {
+			p.W = pos.Weight(1 + r.Intn(1000))
+		}
+		list = append(list, p)
+		if p.W == 0 {
+			delete(m, p.ID)
+		} else {
+			m[p.ID] = uint64(p.W)
+		}
+	}
+	if len(m) == 0 {
+		list = append(list, pair{9, 3})
+		m[9] = 3
+	}
+	enc, err := rlp.EncodeToBytes(list)
+	if err != nil {
+		panic(err)
+	}
+	c.Eval(1)
+	var v pos.Validators
+	why := ""
+	p, _ := ev.Try(func() {
+		if err := rlp.DecodeBytes(enc, &v); err != nil {
+			why = "decode error: " + err.Error()
+			return
+		}
+		if why = c12check(&v, c12canon(m)); why != "" {
+			return
+		}
+		wc := v.NewCounter()
+		for id := range m {
+			if !wc.Count(id) {
+				why = fmt.Sprintf("member %d refused by the counter", id)
+				return
+			}
+		}
+		for i := idx.Validator(0); i < v.Len(); i++ {
+			if wc.CountByIdx(i) {
+				why = fmt.Sprintf("index %d counted although every member was counted already", i)
+				return
+			}
+		}
+		if !wc.HasQuorum() || wc.Sum() != v.TotalWeight() || uint64(v.Quorum()) != uint64(v.TotalWeight())*2/3+1 {
+			why = fmt.Sprintf("whole set counts %d of total %d, quorum %d (reached: %v)", wc.Sum(), v.TotalWeight(), v.Quorum(), wc.HasQuorum())
+		}
+	})
+	if p != nil {
+		why = fmt.Sprint("panic: ", p)
+	}
+	if why != "" {
+		c.Violation("rlp-round-trip-changes-set", map[string]interface{}{"case": caseN, "hand_made_list": fmt.Sprint(list), "expected_pairs": fmt.Sprint(c12canon(m)), "why": why})
+		return
+	}
+	c.Count("hand_made_lists_decoded", 1)
+	if len(list) != len(m) {
+		c.Nontrivial(ev.Hash("hm", fmt.Sprint(list)))
+	}
+}
